@@ -1,5 +1,5 @@
 /- Per message, handling the popped responders first and the retained ones afterwards gives the same
-   entry as handling the queue in order — provided no FETCH follows a held-back re-add (C02). -/
+   entry as handling the queue in order (C02). -/
 import GluonModel.Lemmas.ConvergeLook
 import GluonModel.Lemmas.Flush
 
@@ -16,101 +16,47 @@ theorem List.snoc_induction {α} {P : List α → Prop} (nil : P []) (snoc : ∀
   have := key l.reverse
   rwa [List.reverse_reverse] at this
 
-/-- the `held` set after `fetchSafeAux` has walked over `l` -/
-def heldAfter (skip held : List MsgId) : List Responder → List MsgId
-  | [] => held
-  | .expunge id :: rs => heldAfter (if skip.contains id then skip else id :: skip) (held.filter (· != id)) rs
-  | .exists id .. :: rs =>
-    if skip.contains id then heldAfter (skip.filter (· != id)) (id :: held) rs else heldAfter skip held rs
-  | .fetch .. :: rs => heldAfter skip held rs
-
-theorem fetchSafeAux_append (skip held : List MsgId) (l1 l2 : List Responder) :
-    fetchSafeAux skip held (l1 ++ l2) =
-      (fetchSafeAux skip held l1 && fetchSafeAux (skipAfter skip l1) (heldAfter skip held l1) l2) := by
-  induction l1 generalizing skip held with
-  | nil => simp [fetchSafeAux, skipAfter, heldAfter]
-  | cons r rs ih =>
-    cases r with
-    | «exists» id uid fl t o =>
-      by_cases h : id ∈ skip
-      · simp [fetchSafeAux, skipAfter, heldAfter, h, ih]
-      · simp [fetchSafeAux, skipAfter, heldAfter, h, ih]
-    | expunge id => simp [fetchSafeAux, skipAfter, heldAfter, ih]
-    | fetch id fl op a b c => simp [fetchSafeAux, skipAfter, heldAfter, ih, Bool.and_assoc]
-
-theorem skipAfter_append (skip : List MsgId) (l1 l2 : List Responder) :
-    skipAfter skip (l1 ++ l2) = skipAfter (skipAfter skip l1) l2 := by
-  induction l1 generalizing skip with
-  | nil => simp [skipAfter]
-  | cons r rs ih =>
-    cases r with
-    | «exists» id uid fl t o =>
-      by_cases h : id ∈ skip
-      · simp [skipAfter, h, ih]
-      · simp [skipAfter, h, ih]
-    | expunge id => simp [skipAfter, ih]
-    | fetch id fl op a b c => simp [skipAfter, ih]
-
-theorem heldAfter_append (skip held : List MsgId) (l1 l2 : List Responder) :
-    heldAfter skip held (l1 ++ l2) = heldAfter (skipAfter skip l1) (heldAfter skip held l1) l2 := by
-  induction l1 generalizing skip held with
-  | nil => simp [skipAfter, heldAfter]
-  | cons r rs ih =>
-    cases r with
-    | «exists» id uid fl t o =>
-      by_cases h : id ∈ skip
-      · simp [skipAfter, heldAfter, h, ih]
-      · simp [skipAfter, heldAfter, h, ih]
-    | expunge id => simp [skipAfter, heldAfter, ih]
-    | fetch id fl op a b c => simp [skipAfter, heldAfter, ih]
+theorem stepId_unsilent (sid : StateId) (a : MsgId) (c : Option SMsg) (r : Responder) :
+    stepId sid a c r.unsilent = stepId sid a c r := by
+  cases r <;> rfl
 
 /-- the per-message facts proved together along the queue -/
 structure PopFacts (sid : StateId) (a : MsgId) (res : List Responder) : Prop where
   /-- popped first, retained afterwards = queue order -/
-  comm : ∀ c, ((popAux [] res).1 ++ (popAux [] res).2).foldl (stepId sid a) c = res.foldl (stepId sid a) c
-  /-- a removal of `a` is pending un-answered: the retained responders end with `a` absent -/
-  inSkip : a ∈ skipAfter [] res → ∀ c, (popAux [] res).2.foldl (stepId sid a) c = none
-  /-- otherwise the retained responders do not touch `a`, or end with a held-back re-add of `a` -/
-  notSkip : a ∉ skipAfter [] res →
-    (∀ c, (popAux [] res).2.foldl (stepId sid a) c = c) ∨
-    (∃ m, ∀ c, (popAux [] res).2.foldl (stepId sid a) c = some m)
-  /-- no held-back re-add of `a` since its last removal: the retained responders leave `a` alone or remove it -/
-  notHeld : a ∉ heldAfter [] [] res →
-    (∀ c, (popAux [] res).2.foldl (stepId sid a) c = c) ∨
-    (∀ c, (popAux [] res).2.foldl (stepId sid a) c = none)
+  comm : ∀ c, ((popAux [] [] res).1 ++ (popAux [] [] res).2).foldl (stepId sid a) c = res.foldl (stepId sid a) c
+  /-- no removal and no EXISTS of `a` is retained: the retained responders do not touch `a` -/
+  untouched : a ∉ hexpAfter [] res → a ∉ hexAfter [] [] res →
+    ∀ c, (popAux [] [] res).2.foldl (stepId sid a) c = c
+  /-- no EXISTS of `a` is retained: the retained responders leave `a` alone or remove it -/
+  notHeld : a ∉ hexAfter [] [] res →
+    (∀ c, (popAux [] [] res).2.foldl (stepId sid a) c = c) ∨
+    (∀ c, (popAux [] [] res).2.foldl (stepId sid a) c = none)
 
 theorem popFacts_iff (sid : StateId) (a : MsgId) (res : List Responder) :
     PopFacts sid a res ↔
-      (∀ c, ((popAux [] res).1 ++ (popAux [] res).2).foldl (stepId sid a) c = res.foldl (stepId sid a) c) ∧
-      (a ∈ skipAfter [] res → ∀ c, (popAux [] res).2.foldl (stepId sid a) c = none) ∧
-      (a ∉ skipAfter [] res →
-        (∀ c, (popAux [] res).2.foldl (stepId sid a) c = c) ∨
-        (∃ m, ∀ c, (popAux [] res).2.foldl (stepId sid a) c = some m)) ∧
-      (a ∉ heldAfter [] [] res →
-        (∀ c, (popAux [] res).2.foldl (stepId sid a) c = c) ∨
-        (∀ c, (popAux [] res).2.foldl (stepId sid a) c = none)) :=
-  ⟨fun h => ⟨h.1, h.2, h.3, h.4⟩, fun h => ⟨h.1, h.2.1, h.2.2.1, h.2.2.2⟩⟩
+      (∀ c, ((popAux [] [] res).1 ++ (popAux [] [] res).2).foldl (stepId sid a) c = res.foldl (stepId sid a) c) ∧
+      (a ∉ hexpAfter [] res → a ∉ hexAfter [] [] res →
+        ∀ c, (popAux [] [] res).2.foldl (stepId sid a) c = c) ∧
+      (a ∉ hexAfter [] [] res →
+        (∀ c, (popAux [] [] res).2.foldl (stepId sid a) c = c) ∨
+        (∀ c, (popAux [] [] res).2.foldl (stepId sid a) c = none)) :=
+  ⟨fun h => ⟨h.1, h.2, h.3⟩, fun h => ⟨h.1, h.2.1, h.2.2⟩⟩
 
-theorem popFacts (sid : StateId) (a : MsgId) (res : List Responder) (hsafe : FetchSafe res) :
-    PopFacts sid a res := by
+theorem popFacts (sid : StateId) (a : MsgId) (res : List Responder) : PopFacts sid a res := by
   induction res using List.snoc_induction with
-  | nil =>
-    exact ⟨fun c => rfl, fun h => by simp [skipAfter] at h, fun _ => Or.inl fun c => rfl,
-      fun _ => Or.inl fun c => rfl⟩
+  | nil => exact ⟨fun c => rfl, fun _ _ c => rfl, fun _ => Or.inl fun c => rfl⟩
   | snoc res h ih =>
-    simp only [FetchSafe, fetchSafeAux_append, Bool.and_eq_true] at hsafe
-    obtain ⟨hs1, hs2⟩ := hsafe
-    obtain ⟨hA, hB1, hB2, hB3⟩ := ih hs1
-    generalize hK : skipAfter [] res = K at *
-    generalize hH : heldAfter [] [] res = H at *
-    have hpop : popAux [] (res ++ [h]) =
-        ((popAux [] res).1 ++ (popAux K [h]).1, (popAux [] res).2 ++ (popAux K [h]).2) := by
-      rw [popAux_append, hK]
-    have hsk : skipAfter [] (res ++ [h]) = skipAfter K [h] := by rw [skipAfter_append, hK]
-    have hhe : heldAfter [] [] (res ++ [h]) = heldAfter K H [h] := by rw [heldAfter_append, hK, hH]
-    rw [popFacts_iff, hpop, hsk, hhe]
-    generalize (popAux [] res).1 = pop at *
-    generalize (popAux [] res).2 = rem at *
+    obtain ⟨hA, hB2, hB3⟩ := ih
+    generalize hE : hexpAfter [] res = E at *
+    generalize hX : hexAfter [] [] res = X at *
+    have hpop : popAux [] [] (res ++ [h]) =
+        ((popAux [] [] res).1 ++ (popAux E X [h]).1, (popAux [] [] res).2 ++ (popAux E X [h]).2) := by
+      rw [popAux_append, hE, hX]
+    have hse : hexpAfter [] (res ++ [h]) = hexpAfter E [h] := by rw [hexpAfter_append, hE]
+    have hsx : hexAfter [] [] (res ++ [h]) = hexAfter E X [h] := by rw [hexAfter_append, hE, hX]
+    rw [popFacts_iff, hpop, hse, hsx]
+    generalize (popAux [] [] res).1 = pop at *
+    generalize (popAux [] [] res).2 = rem at *
     have hA' : ∀ c, rem.foldl (stepId sid a) (pop.foldl (stepId sid a) c) = res.foldl (stepId sid a) c := by
       intro c; rw [← hA c, List.foldl_append]
     by_cases hne : h.msgId = a
@@ -119,20 +65,12 @@ theorem popFacts (sid : StateId) (a : MsgId) (res : List Responder) (hsafe : Fet
       | expunge id =>
         simp only [Responder.msgId] at hne
         subst hne
-        have e1 : popAux K [Responder.expunge id] = ([], [Responder.expunge id]) := by simp [popAux]
-        have e2 : id ∈ skipAfter K [Responder.expunge id] := by
-          simp only [skipAfter]
-          split
-          · next h => simpa using h
-          · exact List.mem_cons_self
-        have e3 : id ∉ heldAfter K H [Responder.expunge id] := by simp [heldAfter]
-        rw [e1]
-        simp only [List.append_nil]
-        refine ⟨?_, ?_, ?_, ?_⟩
+        rw [popAux_expunge]
+        have e2 : id ∈ hexpAfter E [Responder.expunge id] := by simp [hexpAfter]
+        simp only [popAux, List.append_nil]
+        refine ⟨?_, ?_, ?_⟩
         · intro c
           rw [← List.append_assoc, List.foldl_append, List.foldl_append, List.foldl_append, hA']
-        · intro _ c
-          simp [List.foldl_append, stepId]
         · intro hnot
           exact absurd e2 hnot
         · intro _
@@ -141,115 +79,109 @@ theorem popFacts (sid : StateId) (a : MsgId) (res : List Responder) (hsafe : Fet
       | «exists» id uid fl t o =>
         simp only [Responder.msgId] at hne
         subst hne
-        by_cases hk : id ∈ K
-        · -- held back
-          have e1 : popAux K [Responder.exists id uid fl t o] = ([], [Responder.exists id uid fl t o]) := by
-            simp [popAux, hk]
-          have e2 : id ∉ skipAfter K [Responder.exists id uid fl t o] := by simp [skipAfter, hk]
-          have e3 : id ∈ heldAfter K H [Responder.exists id uid fl t o] := by simp [heldAfter, hk]
-          rw [e1]
-          simp only [List.append_nil]
-          refine ⟨?_, ?_, ?_, ?_⟩
-          · intro c
-            rw [← List.append_assoc, List.foldl_append, List.foldl_append, List.foldl_append, hA']
-          · intro hin
-            exact absurd hin e2
-          · intro _
-            right
-            refine ⟨Snap.mkMsg id uid (exFlags sid t fl), ?_⟩
-            intro c
-            simp [List.foldl_append, hB1 hk c, stepId]
-          · intro hnot
-            exact absurd e3 hnot
+        cases hk : holdsExists E X id
         · -- popped
-          have e1 : popAux K [Responder.exists id uid fl t o] = ([Responder.exists id uid fl t o], []) := by
-            simp [popAux, hk]
-          have e2 : skipAfter K [Responder.exists id uid fl t o] = K := by simp [skipAfter, hk]
-          have e3 : heldAfter K H [Responder.exists id uid fl t o] = H := by simp [heldAfter, hk]
-          rw [e1, e2, e3]
-          simp only [List.append_nil]
-          refine ⟨?_, hB1, hB2, hB3⟩
+          obtain ⟨hX0, hnE⟩ := holdsExists_false_iff.mp hk
+          rw [popAux_exists_popped hk, hexAfter_exists_popped hk]
+          have e2 : hexpAfter E [Responder.exists id uid fl t o] = E := rfl
+          rw [e2]
+          simp only [popAux, hexAfter, List.append_nil]
+          refine ⟨?_, hB2, hB3⟩
           intro c
           simp only [List.foldl_append, List.foldl_cons, List.foldl_nil]
           rw [← hA' c]
-          rcases hB2 hk with hid | ⟨m, hm⟩
-          · rw [hid, hid]
-          · rw [hm, hm]; simp [stepId]
+          have hid := hB2 hnE (by rw [hX0]; simp)
+          rw [hid, hid]
+        · -- held back
+          rw [popAux_exists_held hk, hexAfter_exists_held hk]
+          have e3 : id ∈ hexAfter E (id :: X) [] := by simp [hexAfter]
+          simp only [popAux, List.append_nil]
+          refine ⟨?_, ?_, ?_⟩
+          · intro c
+            rw [← List.append_assoc, List.foldl_append, List.foldl_append, List.foldl_append, hA']
+          · intro _ hnot
+            exact absurd e3 hnot
+          · intro hnot
+            exact absurd e3 hnot
       | fetch id fl op x y z =>
         simp only [Responder.msgId] at hne
         subst hne
-        have hnh : id ∉ H := by
-          simpa [fetchSafeAux] using hs2
-        have e1 : popAux K [Responder.fetch id fl op x y z] = ([Responder.fetch id fl op x y z], []) := by
-          simp [popAux]
-        have e2 : skipAfter K [Responder.fetch id fl op x y z] = K := by simp [skipAfter]
-        have e3 : heldAfter K H [Responder.fetch id fl op x y z] = H := by simp [heldAfter]
-        rw [e1, e2, e3]
-        simp only [List.append_nil]
-        refine ⟨?_, hB1, hB2, hB3⟩
-        intro c
-        simp only [List.foldl_append, List.foldl_cons, List.foldl_nil]
-        rw [← hA' c]
-        rcases hB3 hnh with hid | hn
-        · rw [hid, hid]
-        · rw [hn, hn]; simp [stepId]
+        have e2 : hexpAfter E [Responder.fetch id fl op x y z] = E := rfl
+        have e3 : hexAfter E X [Responder.fetch id fl op x y z] = X := rfl
+        rw [e2, e3]
+        by_cases hk : id ∈ X
+        · -- held back (un-silenced)
+          rw [popAux_fetch_held hk]
+          simp only [popAux, List.append_nil]
+          refine ⟨?_, fun _ hnot => absurd hk hnot, fun hnot => absurd hk hnot⟩
+          intro c
+          rw [← List.append_assoc, List.foldl_append, List.foldl_append, List.foldl_append, hA']
+          simp only [List.foldl_cons, List.foldl_nil]
+          exact stepId_unsilent sid id _ (.fetch id fl op x y z)
+        · -- popped
+          rw [popAux_fetch_popped hk]
+          simp only [popAux, List.append_nil]
+          refine ⟨?_, hB2, hB3⟩
+          intro c
+          simp only [List.foldl_append, List.foldl_cons, List.foldl_nil]
+          rw [← hA' c]
+          rcases hB3 hk with hid | hn
+          · rw [hid, hid]
+          · rw [hn, hn]; simp [stepId]
     · -- a responder of another message: nothing changes for `a`
       have hst : ∀ c, stepId sid a c h = c := fun c => stepId_other hne
-      have hfold : ∀ (l : List Responder) c, (l ++ (popAux K [h]).2).foldl (stepId sid a) c = l.foldl (stepId sid a) c := by
+      have hst' : ∀ c, stepId sid a c h.unsilent = c := fun c => by rw [stepId_unsilent]; exact hst c
+      have hfold : ∀ (l : List Responder) c, (l ++ (popAux E X [h]).2).foldl (stepId sid a) c = l.foldl (stepId sid a) c := by
         intro l c
         cases h with
-        | expunge id => simp [popAux, List.foldl_append, hst]
+        | expunge id => rw [popAux_expunge]; simp [popAux, List.foldl_append, hst]
         | «exists» id uid fl t o =>
-          by_cases hk : id ∈ K
-          · simp [popAux, hk, List.foldl_append, hst]
-          · simp [popAux, hk]
-        | fetch id fl op x y z => simp [popAux]
-      have hfold1 : ∀ (l : List Responder) c, (l ++ (popAux K [h]).1).foldl (stepId sid a) c = l.foldl (stepId sid a) c := by
+          cases hk : holdsExists E X id
+          · rw [popAux_exists_popped hk]; simp [popAux]
+          · rw [popAux_exists_held hk]; simp [popAux, List.foldl_append, hst]
+        | fetch id fl op x y z =>
+          by_cases hk : id ∈ X
+          · rw [popAux_fetch_held hk]
+            have := hst' c
+            simp only [Responder.unsilent_fetch] at hst'
+            simp [popAux, List.foldl_append, hst']
+          · rw [popAux_fetch_popped hk]; simp [popAux]
+      have hfold1 : ∀ (l : List Responder) c, (l ++ (popAux E X [h]).1).foldl (stepId sid a) c = l.foldl (stepId sid a) c := by
         intro l c
         cases h with
-        | expunge id => simp [popAux]
+        | expunge id => rw [popAux_expunge]; simp [popAux]
         | «exists» id uid fl t o =>
-          by_cases hk : id ∈ K
-          · simp [popAux, hk]
-          · simp [popAux, hk, List.foldl_append, hst]
-        | fetch id fl op x y z => simp [popAux, List.foldl_append, hst]
-      have hskm : a ∈ skipAfter K [h] ↔ a ∈ K := by
+          cases hk : holdsExists E X id
+          · rw [popAux_exists_popped hk]; simp [popAux, List.foldl_append, hst]
+          · rw [popAux_exists_held hk]; simp [popAux]
+        | fetch id fl op x y z =>
+          by_cases hk : id ∈ X
+          · rw [popAux_fetch_held hk]; simp [popAux]
+          · rw [popAux_fetch_popped hk]; simp [popAux, List.foldl_append, hst]
+      have hsem : a ∈ hexpAfter E [h] ↔ a ∈ E := by
         cases h with
         | expunge id =>
           have : a ≠ id := fun h => hne (by simp [Responder.msgId, h])
-          simp only [skipAfter]
-          split
-          · exact Iff.rfl
-          · simp [this]
-        | «exists» id uid fl t o =>
-          have : a ≠ id := fun h => hne (by simp [Responder.msgId, h])
-          simp only [skipAfter]
-          split
-          · simp [List.mem_filter, this]
-          · exact Iff.rfl
-        | fetch id fl op x y z => simp [skipAfter]
-      have hhem : a ∈ heldAfter K H [h] ↔ a ∈ H := by
+          simp [hexpAfter, this]
+        | «exists» id uid fl t o => simp [hexpAfter]
+        | fetch id fl op x y z => simp [hexpAfter]
+      have hsxm : a ∈ hexAfter E X [h] ↔ a ∈ X := by
         cases h with
-        | expunge id =>
-          have : a ≠ id := fun h => hne (by simp [Responder.msgId, h])
-          simp [heldAfter, List.mem_filter, this]
+        | expunge id => simp [hexAfter]
         | «exists» id uid fl t o =>
           have : a ≠ id := fun h => hne (by simp [Responder.msgId, h])
-          simp only [heldAfter]
-          split
-          · simp [this]
-          · exact Iff.rfl
-        | fetch id fl op x y z => simp [heldAfter]
-      refine ⟨?_, ?_, ?_, ?_⟩
+          cases hk : holdsExists E X id
+          · rw [hexAfter_exists_popped hk]; simp [hexAfter]
+          · rw [hexAfter_exists_held hk]; simp [hexAfter, this]
+        | fetch id fl op x y z => simp [hexAfter]
+      refine ⟨?_, ?_, ?_⟩
       · intro c
         rw [List.foldl_append, hfold1, hfold, List.foldl_append, List.foldl_cons, List.foldl_nil, hst, hA' c]
-      · intro hin c
-        rw [hfold]; exact hB1 (hskm.mp hin) c
+      · intro hn1 hn2
+        simp only [hfold]
+        exact hB2 (fun h => hn1 (hsem.mpr h)) (fun h => hn2 (hsxm.mpr h))
       · intro hnot
         simp only [hfold]
-        exact hB2 (fun h => hnot (hskm.mpr h))
-      · intro hnot
-        simp only [hfold]
-        exact hB3 (fun h => hnot (hhem.mpr h))
+        exact hB3 (fun h => hnot (hsxm.mpr h))
 
 end Gluon
